@@ -111,6 +111,31 @@ pub fn eval(toks: &[&str]) -> Option<String> {
                 .collect();
             Some(list_str(&v))
         }
+        // the trait DEFAULT methods, reached through wrappers that do not override them
+        "dsteps" => {
+            let a = ArrViaDefault(parse_arr(&mut t)?);
+            let h = t.u64()?;
+            let v: Vec<u64> = a
+                .steps_iter()
+                .take_while(|x| *x <= Duration::from(h))
+                .map(u64::from)
+                .collect();
+            Some(list_str(&v))
+        }
+        "dleast" => {
+            let c = CostViaDefault(parse_cost(&mut t)?);
+            let n = t.usize()?;
+            Some(format!(
+                "{} {}",
+                u64::from(c.least_wcet(n)),
+                u64::from(c.cost_of_jobs(n))
+            ))
+        }
+        "dneed" => {
+            let r = RbViaDefault(parse_rb(&mut t)?);
+            let d = t.u64()?;
+            Some(u64::from(r.service_needed(Duration::from(d))).to_string())
+        }
         "bsteps" => {
             let a = parse_arr(&mut t)?;
             let h = t.u64()?;
